@@ -14,7 +14,7 @@ RULE = ("four block kinds x seeded contents (0..6 items; duplicate labels, empty
         "stripping, case folding or unicode normalisation would identify with a present label, item objects, None, 1.5, b'x', "
         "numpy integers; observed: identity of the returned item / exception class, membership, len, iteration, and the block's "
         "encoding before and after; then up to three in-place edits through public attributes (an item relabelled, possibly to a "
-        "label another item carries; an item deleted; the item list reversed; an add that the block refuses) each followed by the same questions; non-trivial = block with a duplicate label or >=2 items; distinct by (kind, labels)")
+        "label another item carries; an item deleted; the item list reversed; an add that the block refuses; a list assignment refused after some items were accepted) each followed by the same questions; non-trivial = block with a duplicate label or >=2 items; distinct by (kind, labels)")
 ASSUMPTIONS = ["labels are compared as exact strings; item identity = python object identity"]
 LABELS = ["", "a", "A", " a", "a ", "c7", "é", "b"]
 # labels a stored/normalised form of which collides with another label: longer than a 256-byte field, with an embedded NUL,
@@ -92,6 +92,26 @@ def mk_other_length(kind, blk, rng):
     return b
 
 
+def mk_same_length(kind, blk, rng, k):
+    """a block of the same kind and frame count holding k fresh tracks"""
+    return mk_n(kind, ["fresh%d" % j for j in range(k)], rng, blk.nFrames)
+
+
+def mk_n(kind, labels, rng, n):
+    if kind == "data3d":
+        from basictdf.tdfData3D import Data3D, MarkerTrack
+        b = Data3D(100, n, A.f32(A.gen_vec(rng, 3)), A.f32(A.gen_vec(rng, 9)).reshape(3, 3), A.f32(A.gen_vec(rng, 3)))
+        for l in labels:
+            b.add_track(MarkerTrack(l, A.frames_array(A.gen_frames(rng, 3, n), 3) if n else np.zeros((0, 3), dtype="<f4")))
+        return b
+    from basictdf.tdfForce3D import ForceTorque3D, ForceTorqueTrack
+    b = ForceTorque3D(100, n, A.f32(A.gen_vec(rng, 3)), A.f32(A.gen_vec(rng, 9)).reshape(3, 3), A.f32(A.gen_vec(rng, 3)))
+    for l in labels:
+        a = A.frames_array(A.gen_frames(rng, 9, n), 9) if n else np.zeros((0, 9), dtype="<f4")
+        b.add_track(ForceTorqueTrack(l, a[:, 0:3].copy(), a[:, 3:6].copy(), a[:, 6:9].copy()))
+    return b
+
+
 def live_list(kind, blk):
     """the block's own item list when the public attribute hands it out (in-place edits by the caller are then possible)"""
     attr = {"data3d": "tracks", "force3d": "tracks", "events": "events"}.get(kind)
@@ -104,7 +124,27 @@ def edit(kind, blk, labels, rng):
     n = len(items)
     if n == 0:
         return None
-    what = rng.choice(["relabel-to-existing", "relabel-to-existing", "relabel-new", "delete", "reverse", "refused-add"])
+    what = rng.choice(["relabel-to-existing", "relabel-to-existing", "relabel-new", "delete", "reverse", "refused-add", "refused-assign"])
+    if what == "refused-assign":
+        # a list assignment that fails after k items were taken in (the caller's iterable raises, or its last element has the
+        # wrong length): the old items stay - and len / iteration / lookups must still agree
+        if kind not in ("data3d", "force3d"):
+            return None
+        good = list(iter(mk_same_length(kind, blk, rng, rng.randrange(0, 3))))
+        bad_tail = rng.random() < 0.5
+
+        def values():
+            for t in good:
+                yield t
+            if bad_tail:
+                yield list(iter(mk_other_length(kind, blk, rng)))[0]
+            else:
+                raise OSError("the caller's iterable failed")
+        try:
+            blk.tracks = values()
+        except Exception:
+            return list(labels), f"a list assignment refused after {len(good)} accepted items"
+        return None
     if what == "refused-add":
         # an addition the block must refuse (channel already taken / wrong number of frames): afterwards the block is as before
         try:
